@@ -206,6 +206,26 @@ class Ctx:
                 self.assumptions[name] = sorted(set(ax))
         return ok, out
 
+    def coqchk(self, module=None, timeout=1500):
+        """Independent re-check of the compiled property file and everything it depends on
+        (thorough tier). Records the axioms coqchk lists (kernel primitives filtered out)."""
+        module = module or "Run.Prop_%s" % self.pid
+        cmd = ["coqchk", "-o", "-silent"] + self.coq_args()[:6] + [module]
+        rc, out, dt = sh(cmd, timeout=timeout, cwd=self.build)
+        self.checker_cmds.append("coqchk -o -silent -Q coq/theories Qib -Q build/%s Run %s" % (self.pid, module))
+        ax = []
+        m = re.search(r"\* Axioms:(.*?)\n\s*\n\* ", out, re.S)
+        if m:
+            ax = [a.strip() for a in m.group(1).split("\n") if a.strip() and a.strip() != "<none>"]
+        prim = [a for a in ax if ".PrimInt63." in a or ".PrimFloat." in a or ".PrimArray." in a]
+        real = sorted(set(ax) - set(prim))
+        bad = any(("type-in-type: <none>" not in out, "unsafe (co)fixpoints: <none>" not in out,
+                   "positivity is assumed: <none>" not in out))
+        self.oblige("coqchk:" + module, "theorem", rc == 0 and not bad, out[-1500:])
+        self.notes.append("coqchk -o %s: %d kernel primitives (Int63/Float) listed as axioms; other axioms of all loaded "
+                          "libraries: %s" % (module, len(prim), ", ".join(real) if real else "none"))
+        return real
+
     def cases(self, suite, header, cases, fn="bad_cases", shard=300, timeout=900):
         """Evaluate the model on `cases` inside Coq.
         cases: list of (coq_term, python_description). Returns the list of disagreeing
